@@ -87,7 +87,7 @@ def runCase (cfg : Cfg) (ids : List Nat) (toks : List String) : String :=
 
 /-- The scripted batch server: holds up to `w` arrived requests (arrival = index order in the
 model), answers `held[order[k] % |held|]` at its `k`-th answer. Returns the finish order. -/
-def batchFinishOrder (n w : Nat) (order : List Nat) : List Nat :=
+def batchFinishOrder (n w : Nat) (order : List Nat) (rev : Bool := false) : List Nat :=
   let rec go (fuel : Nat) (held : List Nat) (next answered : Nat) (acc : List Nat) : List Nat :=
     match fuel with
     | 0 => acc.reverse
@@ -97,17 +97,17 @@ def batchFinishOrder (n w : Nat) (order : List Nat) : List Nat :=
       let next := next + take
       if held.isEmpty then acc.reverse
       else
-        let pick := (order.getD (answered % (max order.length 1)) 0) % held.length
+        let pick := if rev then held.length - 1 else (order.getD (answered % (max order.length 1)) 0) % held.length
         let c := held.getD pick 0
         go fuel (held.eraseIdx pick) next (answered + 1) (c :: acc)
   go n [] 0 0 []
 
 /-- batch: worker `j` pops request `j` (pops happen in index order), the calls finish in the
 server's order; the call for request `q` returns `q` (the server echoes the request's own tag). -/
-def runBatch (n w : Nat) (order : List Nat) : String :=
+def runBatch (n w : Nat) (order : List Nat) (rev : Bool := false) : String :=
   let b : Batch Nat Nat := Batch.start (List.range n)
   let b := (List.range n).foldl (fun b w => bstep b (.pop w)) b
-  let b := (batchFinishOrder n w order).foldl (fun b w => match b.cur w with
+  let b := (batchFinishOrder n w order rev).foldl (fun b w => match b.cur w with
     | some (_, q) => bstep b (.finish w q)
     | none => b) b
   "out " ++ ",".intercalate (b.out.map fun o => match o with | some t => toString t | none => "none")
@@ -226,7 +226,7 @@ def stepLine (_ : Unit) (ws : List String) : Unit × String :=
   | ["batch", i, client, n, w, order] =>
     match cfgOf (natOf client) with
     | none => bad i
-    | some _ => ((), i ++ " " ++ runBatch (natOf n) (natOf w) ((splitCommas order).map natOf))
+    | some _ => ((), i ++ " " ++ runBatch (natOf n) (natOf w) ((splitCommas order).map natOf) (order == "rev"))
   | ["dead", i, client, n, _tmo, answered, _fault, _when, _cut] =>
     match cfgOf (natOf client) with
     | none => bad i
